@@ -44,6 +44,11 @@ Structs == <<
      P("v", SInt, TRUE, <<JInt(1)>>, ""),
      P("next", SRef("T"), FALSE, <<JObj1("v", JInt(2))>>, ""),
      P("kids", SArr(SRef("T")), FALSE, <<JArr(<<JObj1("v", JInt(3))>>)>>, "") >>],
+  (* the same, with an earlier definition that also refers to T optionally: the two uses share one
+     Option<T> node and the cycle breaker boxes the property itself (Box<Option<T>>) *)
+  [id |-> "recursive-shared", extra |-> ("Chain" :> SObj(Props1("head", SRef("T")), {})), props |-> <<
+     P("v", SInt, TRUE, <<JInt(1)>>, ""),
+     P("next", SRef("T"), FALSE, <<JObj1("v", JInt(2))>>, "") >>],
   [id |-> "all-default", extra |-> << >>, props |-> <<
      P("m", SMap(SInt), FALSE, <<JObj1("k", JInt(1))>>, ""),
      P("f", With(SBool, "default", JBool(TRUE)), FALSE, <<JBool(FALSE)>>, "") >>] >>
